@@ -25,6 +25,7 @@ import (
 	"github.com/bitcoin-sv/block-headers-service/config"
 	"github.com/bitcoin-sv/block-headers-service/domains"
 	"github.com/bitcoin-sv/block-headers-service/internal/chaincfg"
+	"github.com/bitcoin-sv/block-headers-service/internal/chaincfg/chainhash"
 	"github.com/bitcoin-sv/block-headers-service/internal/wire"
 	"github.com/bitcoin-sv/block-headers-service/service"
 	"github.com/bitcoin-sv/block-headers-service/transports/http/endpoints"
@@ -127,6 +128,152 @@ func c15Session(srv *p2p.VerifC06Server, btcnet wire.BitcoinNet, id int, seq uin
 	return nil
 }
 
+// c15Node is a scripted node that stays connected: handshake done, messages can be sent, closed on demand.
+type c15Node struct {
+	conn   *c15Conn
+	btcnet wire.BitcoinNet
+}
+
+func (n *c15Node) send(m wire.Message) error {
+	_ = n.conn.SetWriteDeadline(time.Now().Add(2 * time.Second))
+	return wire.WriteMessage(n.conn, m, 70015, n.btcnet)
+}
+
+func c15Open(srv *p2p.VerifC06Server, btcnet wire.BitcoinNet, id int, seq uint64, lastBlock int32) (*c15Node, error) {
+	a, b := net.Pipe()
+	nodeAddr := &net.TCPAddr{IP: net.IPv4(10, 16, byte(id>>8), byte(id)), Port: 8333}
+	me := &net.TCPAddr{IP: net.IPv4(10, 15, 255, 254), Port: 8333}
+	svcSide := &c15Conn{Conn: a, local: me, remote: nodeAddr}
+	nodeSide := &c15Conn{Conn: b, local: nodeAddr, remote: me}
+	const pver = uint32(70015)
+	recv := make(chan wire.Message, 64)
+	go func() {
+		defer close(recv)
+		for {
+			m, _, err := wire.ReadMessage(nodeSide, pver, btcnet)
+			if err != nil {
+				var me *wire.MessageError
+				if errors.As(err, &me) {
+					continue
+				}
+				return
+			}
+			select {
+			case recv <- m:
+			default:
+			}
+		}
+	}()
+	srv.Accept(svcSide)
+	v := wire.NewMsgVersion(wire.NewNetAddress(nodeAddr, wire.SFNodeNetwork), wire.NewNetAddress(me, 0), 0xc16000000000+seq, lastBlock)
+	v.Services = wire.SFNodeNetwork
+	v.ProtocolVersion = int32(pver)
+	_ = v.AddUserAgent("verif-c15", "1.0")
+	n := &c15Node{conn: nodeSide, btcnet: btcnet}
+	if err := n.send(v); err != nil {
+		return nil, err
+	}
+	gotVer, gotAck := false, false
+	deadline := time.After(2 * time.Second)
+	for !(gotVer && gotAck) {
+		select {
+		case m, ok := <-recv:
+			if !ok {
+				return nil, fmt.Errorf("closed during handshake")
+			}
+			switch m.(type) {
+			case *wire.MsgVersion:
+				gotVer = true
+			case *wire.MsgVerAck:
+				gotAck = true
+			}
+		case <-deadline:
+			return nil, fmt.Errorf("handshake timeout")
+		}
+	}
+	if err := n.send(wire.NewMsgVerAck()); err != nil {
+		return nil, err
+	}
+	return n, nil
+}
+
+// c15ChurnSequences: peer churn in a fixed ORDER (the free-running loop below never gets there: all its nodes report
+// the same height).  Each sequence ends with a header delivered by a peer that is connected while the manager has
+// NO sync peer (the sync peer left and the remaining peers were behind the tip when they connected / no peer was
+// ever a candidate): the header must be stored and the process must live.  A step marker is printed before every
+// step, so that a crash of the process shows where it happened.
+func c15ChurnSequences(c *Ctx, s *Stack, srv *p2p.VerifC06Server, btcnet wire.BitcoinNet, tip *domains.BlockHeader) (*domains.BlockHeader, error) {
+	seq := uint64(1000)
+	open := func(id int, last int32) (*c15Node, error) {
+		seq++
+		n, err := c15Open(srv, btcnet, id, seq, last)
+		srv.DrainServerQueues()
+		time.Sleep(30 * time.Millisecond)
+		return n, err
+	}
+	deliver := func(n *c15Node, what string, viaInv bool) error {
+		next := domains.BlockHeaderSource{Version: 1, PrevBlock: tip.Hash, MerkleRoot: merkleBytes(4300 + int(seq)), Timestamp: time.Now(), Bits: bitsW2, Nonce: uint32(seq)}
+		mh := wire.NewMsgHeaders()
+		bh := wire.BlockHeader(next)
+		_ = mh.AddBlockHeader(&bh)
+		if viaInv {
+			// announce first, as nodes do for a new block; then answer whatever follows with the header
+			inv := wire.NewMsgInv()
+			hh := chainhash.Hash(service.DefaultBlockHasher().BlockHash(&next))
+			_ = inv.AddInvVect(wire.NewInvVect(wire.InvTypeBlock, &hh))
+			if err := n.send(inv); err != nil {
+				return fmt.Errorf("%s: inv: %w", what, err)
+			}
+			time.Sleep(30 * time.Millisecond)
+		}
+		if err := n.send(mh); err != nil {
+			return fmt.Errorf("%s: headers: %w", what, err)
+		}
+		for w := 0; w < 200; w++ {
+			t := s.Services.Headers.GetTip()
+			if t != nil && t.PreviousBlock == tip.Hash {
+				tip = t
+				return nil
+			}
+			time.Sleep(10 * time.Millisecond)
+		}
+		return fmt.Errorf("%s: header delivered by a connected peer was not stored within 2 s", what)
+	}
+	for round, viaInv := range []bool{false, true, false} {
+		fmt.Printf("C15peers churn sequence %d step 1: node S (ahead of us) connects and becomes the sync peer\n", round)
+		sp, err := open(201+round*10, tip.Height+50)
+		if err != nil {
+			return tip, fmt.Errorf("sequence %d: S: %w", round, err)
+		}
+		fmt.Printf("C15peers churn sequence %d step 2: node L (behind our tip) connects: not a sync candidate\n", round)
+		lp, err := open(202+round*10, 0)
+		if err != nil {
+			return tip, fmt.Errorf("sequence %d: L: %w", round, err)
+		}
+		if round == 2 {
+			fmt.Printf("C15peers churn sequence %d step 2b: a second lagging node connects and leaves\n", round)
+			if x, err := open(203+round*10, 0); err == nil {
+				x.conn.Close()
+				srv.DrainServerQueues()
+			}
+		}
+		fmt.Printf("C15peers churn sequence %d step 3: S disconnects: no candidate is left, the manager has no sync peer\n", round)
+		sp.conn.Close()
+		srv.DrainServerQueues()
+		time.Sleep(80 * time.Millisecond)
+		srv.DrainServerQueues()
+		fmt.Printf("C15peers churn sequence %d step 4: L delivers a new header (announced first: %v)\n", round, viaInv)
+		if err := deliver(lp, fmt.Sprintf("sequence %d", round), viaInv); err != nil {
+			return tip, err
+		}
+		fmt.Printf("C15peers churn sequence %d step 5: L disconnects\n", round)
+		lp.conn.Close()
+		srv.DrainServerQueues()
+		time.Sleep(30 * time.Millisecond)
+	}
+	return tip, nil
+}
+
 func runC15Peers(c *Ctx) error {
 	s, err := NewStack(StackOpts{Dir: c.TmpDir("c15peers")})
 	if err != nil {
@@ -144,7 +291,8 @@ func runC15Peers(c *Ctx) error {
 		config.TimeSource = config.NewMedianTime(&lg)
 	}
 	fresh := domains.BlockHeaderSource{Version: 1, PrevBlock: *prm.GenesisHash, MerkleRoot: merkleBytes(4242), Timestamp: time.Now(), Bits: bitsW2, Nonce: 1}
-	if _, err := s.Services.Chains.Add(fresh); err != nil {
+	freshHdr, err := s.Services.Chains.Add(fresh)
+	if err != nil || freshHdr == nil {
 		return fmt.Errorf("c15peers: storing a current tip: %w", err)
 	}
 	// the shared map, wired as in cmd/main.go: NetworkService and SyncManager get the same map value
@@ -165,6 +313,15 @@ func runC15Peers(c *Ctx) error {
 	sm.Start()
 	defer sm.Stop()
 
+	churnObs := "stored"
+	if _, err := c15ChurnSequences(c, s, srv, prm.Net, freshHdr); err != nil {
+		churnObs = "FAILED " + err.Error()
+		fmt.Printf("C15peers churn sequence failed: %v\n", err)
+	}
+	c.Case("c15peers churn sequences: sync peer leaves, lagging peer remains and delivers a header", churnObs)
+	if churnObs != "stored" {
+		return fmt.Errorf("c15peers: %s", churnObs)
+	}
 	dur := time.Duration(c.Pick(2000, 6000)) * time.Millisecond
 	stop := time.Now().Add(dur)
 	var wg sync.WaitGroup
